@@ -104,6 +104,7 @@ Inductive outcome :=
 | ONext | OReturn | OContinue
 | ORaise (e : exn)
 | OSuspend (a : await_pt)
+| OCancelled      (* checkpoint_if_cancelled() at the start of the call found the caller's scope cancelled *)
 | OStuck.
 
 (* locals of one activation *)
@@ -113,7 +114,8 @@ Record loc := mkloc {
   l_bor : option nat;        (* borrower (parameter or popped key) *)
   l_ev : option nat;         (* event *)
   l_val : option tokval;     (* value (parameter of the setter) *)
-  l_fresh : bool             (* no effect and no suspension since the call began *)
+  l_fresh : bool;            (* no effect and no suspension since the call began *)
+  l_canc : bool              (* the caller's cancel scope is effectively cancelled when the call begins *)
 }.
 
 (* events of the segment that the ghost bookkeeping of the models needs *)
@@ -125,10 +127,12 @@ Record log := mklog {
 }.
 
 Definition log0 : log := mklog [] [] [] [].
-Definition loc_entry (b : option nat) (v : option tokval) : loc := mkloc None None b None v true.
-Definition loc_resume (f : option nat) (b : option nat) (e : option nat) : loc := mkloc f None b e None false.
+Definition loc_entry (b : option nat) (v : option tokval) : loc := mkloc None None b None v true false.
+(* the same call made from an effectively cancelled scope (C08 clause (a)) *)
+Definition loc_entry_cancelled (b : option nat) : loc := mkloc None None b None None true true.
+Definition loc_resume (f : option nat) (b : option nat) (e : option nat) : loc := mkloc f None b e None false false.
 
-Definition touch (l : loc) : loc := mkloc (l_fut l) (l_ann l) (l_bor l) (l_ev l) (l_val l) false.
+Definition touch (l : loc) : loc := mkloc (l_fut l) (l_ann l) (l_bor l) (l_ev l) (l_val l) false (l_canc l).
 
 Definition set_value (k : heap) (v : nat) : heap :=
   mkh (h_fast k) (h_maxv k) v (h_waiters k) (h_futs k) (h_nfut k) (h_total k) (h_borrowers k) (h_queue k)
@@ -251,7 +255,7 @@ Fixpoint exec (p : stmt) (t : nat) (l : loc) (g : log) (k : heap) {struct p} : r
       match arg, b with
       | ArgBorrower, None => (l, g, k, OStuck)
       | _, _ =>
-          let '(_, g1, k1, o) := exec body t (mkloc None None b None None false) g k in
+          let '(_, g1, k1, o) := exec body t (mkloc None None b None None false false) g k in
           match o with
           | ONext | OReturn => (touch l, g1, k1, ONext)
           | ORaise x => (touch l, g1, k1, ORaise x)
@@ -261,9 +265,11 @@ Fixpoint exec (p : stmt) (t : nat) (l : loc) (g : log) (k : heap) {struct p} : r
   | SRaise x => (l, g, k, ORaise x)
   | SReturn => (l, g, k, OReturn)
   | SCkIf =>
-      (* as in LockImp: not suspending and not raising is the behaviour only when the caller's scope is not
-         cancelled (C08 covers the other case), and only before any effect / suspension of this call *)
-      if l_fresh l then (l, g, k, ONext) else (l, g, k, OStuck)
+      (* as in LockImp.  Caller's scope not cancelled: neither suspends nor raises.  Caller's scope effectively
+         cancelled (l_canc): the call does not get past this point - checkpoint_if_cancelled spins until the delivery
+         arrives and the cancellation is raised out of the call (C03_ckif_spin_terminates) - the segment ends with
+         OCancelled.  Only before any effect / suspension of this call; anywhere else the marker is outside the model. *)
+      if l_fresh l then (if l_canc l then (l, g, k, OCancelled) else (l, g, k, ONext)) else (l, g, k, OStuck)
   | SSuspend a =>
       match a with
       | AwYield => (l, g, k, OSuspend a)
@@ -278,7 +284,7 @@ Fixpoint exec (p : stmt) (t : nat) (l : loc) (g : log) (k : heap) {struct p} : r
   | SIncValue => (touch l, g, set_value k (S (h_value k)), ONext)
   | SNewFut =>
       let f := h_nfut k in
-      (mkloc (Some f) (l_ann l) (l_bor l) (l_ev l) (l_val l) false, g,
+      (mkloc (Some f) (l_ann l) (l_bor l) (l_ev l) (l_val l) false (l_canc l), g,
        set_futs k (upd (h_futs k) f Sem.FPending) (S f), ONext)
   | SAppendFut =>
       match l_fut l with
@@ -295,7 +301,7 @@ Fixpoint exec (p : stmt) (t : nat) (l : loc) (g : log) (k : heap) {struct p} : r
       end
   | SPopFut =>
       match h_waiters k with
-      | (w, f) :: r => (mkloc (Some f) (Some w) (l_bor l) (l_ev l) (l_val l) false, g, set_waiters k r, ONext)
+      | (w, f) :: r => (mkloc (Some f) (Some w) (l_bor l) (l_ev l) (l_val l) false (l_canc l), g, set_waiters k r, ONext)
       | [] => (l, g, k, OStuck)
       end
   | SSetResult =>
@@ -325,7 +331,7 @@ Fixpoint exec (p : stmt) (t : nat) (l : loc) (g : log) (k : heap) {struct p} : r
       end
   | SNewEvent =>
       let e := h_nev k in
-      (mkloc (l_fut l) (l_ann l) (l_bor l) (Some e) (l_val l) false, g,
+      (mkloc (l_fut l) (l_ann l) (l_bor l) (Some e) (l_val l) false (l_canc l), g,
        set_evs k (upd (h_evset k) e false) (S e), ONext)
   | SQueueSet =>
       match l_bor l, l_ev l with
@@ -340,7 +346,7 @@ Fixpoint exec (p : stmt) (t : nat) (l : loc) (g : log) (k : heap) {struct p} : r
       end
   | SPopItem =>
       match h_queue k with
-      | (b, e) :: r => (mkloc (l_fut l) (l_ann l) (Some b) (Some e) (l_val l) false, g, set_queue k r, ONext)
+      | (b, e) :: r => (mkloc (l_fut l) (l_ann l) (Some b) (Some e) (l_val l) false (l_canc l), g, set_queue k r, ONext)
       | [] => (l, g, k, OStuck)
       end
   | SEventSet =>
